@@ -22,6 +22,7 @@ _KEEP = []
 _DEPTH = [0]
 _INSTALLED = [False]
 MISSING = []
+_JOBFILE = [False]
 
 
 def dig(a):
@@ -266,6 +267,8 @@ def install():
 
     def _write(self, *a, **k):
         r = o_write(self, *a, **k)
+        if not _JOBFILE[0]:          # a Frame event means: the running job writes a result file (whatever helper the job calls otherwise)
+            return r
         try:
             ba = wsig.bind(self, *a, **k).arguments          # whatever the signature is: the frame time and the substep written
             emit("Frame", time=int(ba["time"]), x=xdig(ba["substep"].x))
@@ -285,6 +288,7 @@ def install():
         x0 = ba.arguments.get("kwargs", {}).get("x0")
         emit("JobBegin", nsteps=len(self.steps), usex0=x0 is not None, x0=xdig(x0) if x0 is not None else "none",
              file=ba.arguments.get("filename") is not None)
+        _JOBFILE[0] = ba.arguments.get("filename") is not None
         cb = self.callback
 
         def callback(j, i, substep, **kw):
